@@ -1,0 +1,117 @@
+//go:build verif
+
+// Interface contracts of package kanzi (kvc). Comment-only file.
+package kanzi
+
+//@ -- OutputBitStream: abstract view = a tape of (value,width) tokens, a bit counter,
+//@ -- a closed flag, a sticky failure flag and the ghost counter `plain` (plain bytes
+//@ -- of the blocks appended so far; moved only by the ghost definition in encode).
+//@ ghost OutputBitStream wbits int
+//@ ghost OutputBitStream oclosed bool
+//@ ghost OutputBitStream ofailed bool
+//@ ghost OutputBitStream plain int
+//@ ghost OutputBitStream tapeV ints
+//@ ghost OutputBitStream tapeW ints
+
+//@ iface kanzi.OutputBitStream WriteBits(bits, count) (r)
+//@   ensures r == count && count <= 64 && !old(this.oclosed)
+//@   ensures this.wbits == old(this.wbits) + count
+//@   ensures len(this.tapeV) == old(len(this.tapeV)) + 1 && len(this.tapeW) == len(this.tapeV)
+//@   ensures this.tapeV[old(len(this.tapeV))] == bits && this.tapeW[old(len(this.tapeV))] == count
+//@   ensures forall k :: 0 <= k && k < old(len(this.tapeV)) ==> this.tapeV[k] == old(this.tapeV[k]) && this.tapeW[k] == old(this.tapeW[k])
+//@   ensures old(len(this.tapeV)) >= 1 ==> this.tapeV[old(len(this.tapeV)) - 1] == old(this.tapeV[len(this.tapeV) - 1]) && this.tapeW[old(len(this.tapeV)) - 1] == old(this.tapeW[len(this.tapeV) - 1])
+//@   ensures old(this.ofailed) ==> this.ofailed
+//@   panics old(this.oclosed) || count > 64 || this.ofailed
+//@   panics (old(this.ofailed) ==> this.ofailed) && this.wbits >= old(this.wbits)
+//@   modifies this.wbits, this.ofailed, this.tapeV, this.tapeW
+
+//@ iface kanzi.OutputBitStream WriteBit(bit)
+//@   ensures !old(this.oclosed)
+//@   ensures this.wbits == old(this.wbits) + 1
+//@   ensures len(this.tapeV) == old(len(this.tapeV)) + 1 && len(this.tapeW) == len(this.tapeV)
+//@   ensures this.tapeV[old(len(this.tapeV))] == bit % 2 && this.tapeW[old(len(this.tapeV))] == 1
+//@   ensures forall k :: 0 <= k && k < old(len(this.tapeV)) ==> this.tapeV[k] == old(this.tapeV[k]) && this.tapeW[k] == old(this.tapeW[k])
+//@   ensures old(len(this.tapeV)) >= 1 ==> this.tapeV[old(len(this.tapeV)) - 1] == old(this.tapeV[len(this.tapeV) - 1]) && this.tapeW[old(len(this.tapeV)) - 1] == old(this.tapeW[len(this.tapeV) - 1])
+//@   ensures old(this.ofailed) ==> this.ofailed
+//@   panics old(this.oclosed) || this.ofailed
+//@   panics (old(this.ofailed) ==> this.ofailed) && this.wbits >= old(this.wbits)
+//@   modifies this.wbits, this.ofailed, this.tapeV, this.tapeW
+
+//@ iface kanzi.OutputBitStream WriteArray(bits, count) (r)
+//@   ensures r == count && count <= 8*len(bits) && !old(this.oclosed)
+//@   ensures this.wbits == old(this.wbits) + count
+//@   ensures len(this.tapeV) == old(len(this.tapeV)) + 1 && len(this.tapeW) == len(this.tapeV)
+//@   ensures this.tapeW[old(len(this.tapeV))] == 0 - count
+//@   ensures forall k :: 0 <= k && k < old(len(this.tapeV)) ==> this.tapeV[k] == old(this.tapeV[k]) && this.tapeW[k] == old(this.tapeW[k])
+//@   ensures old(len(this.tapeV)) >= 1 ==> this.tapeV[old(len(this.tapeV)) - 1] == old(this.tapeV[len(this.tapeV) - 1]) && this.tapeW[old(len(this.tapeV)) - 1] == old(this.tapeW[len(this.tapeV) - 1])
+//@   ensures old(this.ofailed) ==> this.ofailed
+//@   panics old(this.oclosed) || count > 8*len(bits) || this.ofailed
+//@   panics (old(this.ofailed) ==> this.ofailed) && this.wbits >= old(this.wbits)
+//@   modifies this.wbits, this.ofailed, this.tapeV, this.tapeW
+
+//@ iface kanzi.OutputBitStream Close() (err)
+//@   ensures err == nil ==> this.oclosed
+//@   ensures err != nil ==> this.ofailed && (this.oclosed <==> old(this.oclosed))
+//@   ensures old(this.oclosed) ==> err == nil
+//@   ensures this.wbits == old(this.wbits)
+//@   ensures old(this.ofailed) ==> this.ofailed
+//@   modifies this.oclosed, this.ofailed
+
+//@ iface kanzi.OutputBitStream Written() (n)
+//@   ensures n == this.wbits
+//@   modifies nothing
+
+//@ -- InputBitStream: bit counter, closed flag, "source ended or failed" flag, and the
+//@ -- token tape being read (meaningful while `aligned`: the reads made so far follow
+//@ -- the token boundaries of the writer).
+//@ ghost InputBitStream rbitsI int
+//@ ghost InputBitStream iclosed bool
+//@ ghost InputBitStream ieof bool
+//@ ghost InputBitStream aligned bool
+//@ ghost InputBitStream ipos int
+//@ ghost InputBitStream itapeV ints
+//@ ghost InputBitStream itapeW ints
+
+//@ iface kanzi.InputBitStream ReadBits(count) (v)
+//@   ensures 1 <= count && count <= 64 && !old(this.iclosed)
+//@   ensures (count <= 1 ==> v < 2) && (count <= 2 ==> v < 4) && (count <= 3 ==> v < 8) && (count <= 4 ==> v < 16) && (count <= 5 ==> v < 32) && (count <= 6 ==> v < 64) && (count <= 8 ==> v < 256) && (count <= 15 ==> v < 32768) && (count <= 16 ==> v < 65536) && (count <= 24 ==> v < 16777216) && (count <= 28 ==> v < 268435456) && (count <= 32 ==> v < 4294967296) && (count <= 48 ==> v < 281474976710656)     #value-fits-width
+//@   ensures this.rbitsI == old(this.rbitsI) + count
+//@   ensures old(this.aligned) && old(this.ipos) < len(this.itapeW) && this.itapeW[old(this.ipos)] == count ==> this.aligned && this.ipos == old(this.ipos) + 1 && (count == 64 || v == this.itapeV[old(this.ipos)] % (1 << count))
+//@   ensures !(old(this.aligned) && old(this.ipos) < len(this.itapeW) && this.itapeW[old(this.ipos)] == count) ==> !this.aligned
+//@   ensures old(this.ieof) ==> this.ieof
+//@   panics old(this.iclosed) || count == 0 || count > 64 || this.ieof
+//@   panics (old(this.ieof) ==> this.ieof) && this.rbitsI >= old(this.rbitsI)
+//@   modifies this.rbitsI, this.ieof, this.aligned, this.ipos
+
+//@ iface kanzi.InputBitStream ReadBit() (v)
+//@   ensures !old(this.iclosed) && (v == 0 || v == 1)
+//@   ensures this.rbitsI == old(this.rbitsI) + 1
+//@   ensures old(this.aligned) && old(this.ipos) < len(this.itapeW) && this.itapeW[old(this.ipos)] == 1 ==> this.aligned && this.ipos == old(this.ipos) + 1 && v == this.itapeV[old(this.ipos)] % 2
+//@   ensures !(old(this.aligned) && old(this.ipos) < len(this.itapeW) && this.itapeW[old(this.ipos)] == 1) ==> !this.aligned
+//@   ensures old(this.ieof) ==> this.ieof
+//@   panics old(this.iclosed) || this.ieof
+//@   panics (old(this.ieof) ==> this.ieof) && this.rbitsI >= old(this.rbitsI)
+//@   modifies this.rbitsI, this.ieof, this.aligned, this.ipos
+
+//@ iface kanzi.InputBitStream ReadArray(bits, count) (r)
+//@   ensures r == count && !old(this.iclosed)
+//@   ensures this.rbitsI == old(this.rbitsI) + count
+//@   ensures old(this.aligned) && old(this.ipos) < len(this.itapeW) && this.itapeW[old(this.ipos)] == 0 - count ==> this.aligned && this.ipos == old(this.ipos) + 1
+//@   ensures !(old(this.aligned) && old(this.ipos) < len(this.itapeW) && this.itapeW[old(this.ipos)] == 0 - count) ==> !this.aligned || count == 0
+//@   ensures old(this.ieof) ==> this.ieof
+//@   panics old(this.iclosed) || this.ieof || count > 8*len(bits)
+//@   panics (old(this.ieof) ==> this.ieof) && this.rbitsI >= old(this.rbitsI)
+//@   modifies bits[*], this.rbitsI, this.ieof, this.aligned, this.ipos
+
+//@ iface kanzi.InputBitStream Close() (err)
+//@   ensures err == nil ==> this.iclosed
+//@   ensures this.rbitsI == old(this.rbitsI)
+//@   modifies this.iclosed
+
+//@ iface kanzi.InputBitStream Read() (n)
+//@   ensures n == this.rbitsI
+//@   modifies nothing
+
+//@ iface kanzi.InputBitStream HasMoreToRead() (more, err)
+//@   ensures more <==> err == nil
+//@   modifies this.ieof
